@@ -235,9 +235,15 @@ def runEF (c : Case) : List String :=
   let e := fun i => (c.extra.getD i f32zero)
   let zArr : Array (Float × Float) := ((List.range nmax).map fun i =>
       ((c.parts.getD (2 * i) f32zero).toFloat, (c.parts.getD (2 * i + 1) f32zero).toFloat)).toArray
-  -- the harness builds the PhaseSpace with mkps defaults: q,p in [-6,6], scales 1e-3 m, 6.11e5 eV
-  let ax : Ruler Float32 := { steps := n, min := Float32.ofBits 0xc0c00000, max := Float32.ofBits 0x40c00000 }
+  -- the harness builds the PhaseSpace with mkps defaults (q,p in [-6,6]) or the box in extra[7..10];
+  -- scales 1e-3 m, 6.11e5 eV.  `delta` = position cell (getDelta(0)), `deltaP` = energy cell (getDelta(1))
+  let box := c.extra.size ≥ 11
+  let ax : Ruler Float32 := { steps := n, min := if box then e 7 else Float32.ofBits 0xc0c00000,
+                              max := if box then e 8 else Float32.ofBits 0x40c00000 }
+  let axP : Ruler Float32 := { steps := n, min := if box then e 9 else Float32.ofBits 0xc0c00000,
+                               max := if box then e 10 else Float32.ofBits 0x40c00000 }
   let delta : Float32 := ax.delta
+  let deltaP : Float32 := axP.delta
   let qscale : Float32 := (1e-3 : Float).toFloat32
   let pscale : Float32 := (6.11e5 : Float).toFloat32
   let frev := (e 0).toFloat
@@ -247,9 +253,9 @@ def runEF (c : Case) : List String :=
   let sdelta := (e 4).toFloat
   let dt := (e 5).toFloat
   let fcut : Float32 := e 6
-  let wsc0 : Float32 := (ib * dt * c_light / qscale.toFloat / (delta.toFloat * sdelta * e0)).toFloat32
+  let wsc0 : Float32 := (ib * dt * c_light / qscale.toFloat / (deltaP.toFloat * sdelta * e0)).toFloat32
   let wakescaling : Float32 := wsc0 / Float32.ofNat nmax
-  let volts : Float := (delta * pscale / revpart).toFloat
+  let volts : Float := (deltaP * pscale / revpart).toFloat
   let f4wph : Float := 2.0 * 1.0 * 1.0 * 1.0 / frev
   let hz : Float32 := (c_light / qscale.toFloat).toFloat32
   let f4w : Float := f4wph * hz.toFloat
